@@ -13,6 +13,10 @@ fn main() {
     let first: u64 = a.get(2).and_then(|s| s.parse().ok()).unwrap_or(0);
     let n: u64 = a.get(3).and_then(|s| s.parse().ok()).unwrap_or(4);
     let threads = a.get(4).map_or(true, |s| s != "nothreads");
+    // "sb": only operations that reach nodes through Table::get_mut (iterators, value_mut, set, remove);
+    // this subset is clean under Stacked Borrows on the unchanged tree, so Miri can run with borrow
+    // tracking enabled and sees aliasing-model regressions in the raw-pointer element access
+    let sb_mode = a.iter().any(|s| s == "sb");
     ptv::engine::install_panic_hook();
     let types = ["u8", "u32", "ipnet6", "inet4"];
     let mut nontrivial = 0;
@@ -50,6 +54,20 @@ fn main() {
         c.case.ops = ops;
         if c.plan.len() < 3 {
             c.plan = (0..5).map(|_| ptv::c14::PlanStep::Split(next() as u16)).collect();
+        }
+        if sb_mode {
+            use ptv::c14::{PlanStep, WOp};
+            c.pair_kind = 0;
+            c.plan.retain(|p| matches!(p, PlanStep::Split(_)));
+            if c.plan.len() < 3 {
+                c.plan = (0..5).map(|j| PlanStep::Split((j * 9973) as u16)).collect();
+            }
+            for w in c.workers.iter_mut() {
+                w.retain(|o| matches!(o, WOp::IterMutWrite(_) | WOp::ValuesMutWrite(_) | WOp::Set | WOp::Remove | WOp::ValueMut));
+                if w.is_empty() {
+                    w.push(WOp::IterMutWrite(!0));
+                }
+            }
         }
         println!("MIRI-CASE {k}");
         let r = exec_c14_dyn(&c, threads);
